@@ -432,11 +432,11 @@ def mut_self_to_local(text: str, name: str, report: DropReport, item: str) -> st
     e = R.match_close(ct, k)
     hit = None
     for j in range(k, e):
-        if ct[j].text == "mut" and ct[j + 1].text == "self":
+        if ct[j].text == "mut" and ct[j + 1].text == "self" and ct[j - 1].text != "&":
             hit = j
             break
     if hit is None:
-        raise ExtractError(f"{item}: no `mut self` parameter")
+        return text     # `&mut self` / `self`: nothing to rewrite
     fr.replace(ct[hit].start, ct[hit + 1].start, "")
     b = e
     while ct[b].text != "{":
